@@ -2,8 +2,8 @@
    Only statements; proofs by reference.  Model: model/Ingest.v (per-column buffers of one insert worker, the six
    ProcessRequest closures), model/PushHandler.v (all workers and handlers); monitor: model/IngestSpec.v smon_step. *)
 From Coq Require Import List NArith ZArith Bool.
-From Qryn Require Import model.Ingest model.PushHandler model.IngestSpec proofs.IngestBase proofs.IngestAck
-  proofs.IngestSpecProofs.
+From Qryn Require Import model.Ingest model.PushHandler model.IngestSpec model.IngestFresh proofs.IngestBase proofs.IngestAck
+  proofs.IngestSpecProofs proofs.IngestPromises.
 Import ListNotations.
 
 (* If every submitted request is the table of its rows, then for every configuration and every interleaving each
@@ -65,3 +65,54 @@ Proof.
   vm_compute in H. eapply H; reflexivity.
 Qed.
 Print Assumptions blocks_good_any_request_refuted.
+
+(* "No row is duplicated inside a block."  Row ids are data of the requests, so this needs the hypothesis that
+   submitted ids are globally fresh (model/IngestFresh.v, fresh_run own): every row id has one owner -- a direct
+   Request call with a promise of its own, or one sub-request (push h, position i) of one arriving push -- and a
+   submission holds only ids it owns, each once.  The retry of a sub-push re-submits the SAME rows, so freshness
+   alone is not enough: what makes the theorem true is the life cycle of the promises (invariant LJ of
+   proofs/IngestPromises.v: attempt k+1 is started only after the promise of attempt k was completed, a completed
+   promise is held by no worker, a pending one by exactly one).
+   For every configuration and every fresh run of well-formed requests, every block handed to ClickHouse is the table
+   of its rows (all columns) and no row id occurs twice in it. *)
+Theorem blocks_have_distinct_rows : forall (own : N -> okey) cfg n tr g es,
+  forallb act_wf tr = true -> fresh_run own (ginit cfg n) tr = true ->
+  grun (ginit cfg n) tr = Some (g, es) ->
+  forall s k b, In (ESend s k b) es -> good_block_b k b = true.
+Proof. exact sends_are_tables_of_distinct_rows. Qed.
+Print Assumptions blocks_have_distinct_rows.
+
+(* The same without any hypothesis on the shape of the requests, on states: the row ids of the requests whose promises
+   a worker holds -- open batch and portion handed to Do together -- are pairwise distinct. *)
+Theorem held_rows_are_distinct : forall (own : N -> okey) cfg n tr g es s sv,
+  fresh_run own (ginit cfg n) tr = true -> grun (ginit cfg n) tr = Some (g, es) ->
+  nth_error (svcs g) s = Some sv -> NoDup (rows_of (pend sv)).
+Proof. exact held_rows_distinct. Qed.
+Print Assumptions held_rows_are_distinct.
+
+(* The life-cycle fact behind it, for every run: two pending promises of the same sub-push are the same attempt with
+   the same request, and a pending promise is not completed. *)
+Theorem one_attempt_of_a_sub_push_is_pending : forall cfg n tr g es s1 sv1 s2 sv2 h i k1 k2 r1 r2,
+  grun (ginit cfg n) tr = Some (g, es) ->
+  nth_error (svcs g) s1 = Some sv1 -> In (PSub h i k1, r1) (pend sv1) ->
+  nth_error (svcs g) s2 = Some sv2 -> In (PSub h i k2, r2) (pend sv2) ->
+  k1 = k2 /\ r1 = r2 /\ in_store (PSub h i k1) (store g) = false.
+Proof. exact one_attempt_pending. Qed.
+Print Assumptions one_attempt_of_a_sub_push_is_pending.
+
+(* The freshness hypothesis cannot be dropped: two clients submitting the same row id get it twice in one block. *)
+Theorem distinct_rows_need_fresh_ids_refuted : ~ (forall cfg n tr g es,
+  forallb act_wf tr = true -> grun (ginit cfg n) tr = Some (g, es) ->
+  forall s k b, In (ESend s k b) es -> good_block_b k b = true).
+Proof.
+  intros H.
+  pose (tr := [GEnvReq 0 KSamples 1%N (table_of 5 [3%N]) 10%Z; GEnvReq 0 KSamples 2%N (table_of 5 [3%N]) 10%Z;
+               GSvc 0 SPlan; GSvc 0 (SDial true); GSvc 0 SSwap; GSvc 0 SSend]).
+  destruct (grun (ginit [(KSamples, 0%nat, 0%Z)] 1%N) tr) as [[g es]|] eqn:E; [|vm_compute in E; discriminate].
+  assert (W : forallb act_wf tr = true) by (vm_compute; reflexivity).
+  specialize (H _ _ _ _ _ W E 0%nat KSamples (table_of 5 [3%N; 3%N])).
+  assert (Hin : In (ESend 0 KSamples (table_of 5 [3%N; 3%N])) es).
+  { vm_compute in E. inversion E; subst. cbn. repeat (first [left; reflexivity|right]). }
+  specialize (H Hin). vm_compute in H. discriminate.
+Qed.
+Print Assumptions distinct_rows_need_fresh_ids_refuted.
